@@ -4285,6 +4285,7 @@ class Wallet(object):
                                      random_output_order=False)
         rt.version_int = t_import.version_int
         rt.version = t_import.version
+        rt.locktime = t_import.locktime
         rt.verify()
         rt.size = len(rawtx)
         rt.calc_weight_units()
